@@ -8,7 +8,7 @@
 From Coq Require Import List NArith ZArith.
 From CliUtils Require Import Model.ActuationTable Model.PipelineTypes Model.Pipeline
      Proofs.PipelineBase Proofs.PipelineAuth Proofs.PipelineOrder Proofs.PipelineOrphansRun Proofs.PipelineOrderPlan
-     Corr.CorrPipeline Proofs.PipelineOrderMon.
+     Corr.CorrPipeline Proofs.PipelineOrderMon Proofs.PipelineMonC04obs.
 Import ListNotations.
 
 (* when an apply request (create or patch) for d reaches the server, every
@@ -117,6 +117,11 @@ Proof. exact run_unique_result. Qed.
    implementation's traces (Corr/CorrPipeline.v) holds on the model's run *)
 Theorem C04_monitor : forall sc c0, WF sc c0 -> mon_C04 sc c0 (run sc c0) = true.
 Proof. exact mon_C04_holds. Qed.
+(* observation level: the Successful wait event that licenses the apply of a dependent
+   rests on a delivered observation of the dependency that is Current, carries a body, at a
+   generation not older than the applied one, and with the applied UID *)
+Theorem C04_monitor_obs : forall sc c0, WF sc c0 -> mon_C04_obs sc c0 (run sc c0) = true.
+Proof. exact monitor_C04_obs. Qed.
 
 (* the hypotheses are satisfiable: the blocked run of the example below is well-formed *)
 Example C04_wf_nonvacuous :
@@ -182,3 +187,4 @@ Print Assumptions C04_blocked_end_of_run_partial.
 Print Assumptions C04_blocked.
 Print Assumptions C04_one_result_event_per_object.
 Print Assumptions C04_monitor.
+Print Assumptions C04_monitor_obs.
